@@ -19,6 +19,8 @@ type Solver struct {
 	declared map[string]Sort
 	vars     []string
 	defined  map[int]bool
+	stack    []*Term
+	TCheck, TPrep, TModel time.Duration
 	Queries  int
 	Time     time.Duration
 	log      io.Writer
@@ -35,6 +37,7 @@ func NewSolver(bin string, args ...string) *Solver {
 	s := &Solver{cmd: cmd, in: in, out: bufio.NewReader(out), declared: map[string]Sort{}, defined: map[int]bool{}}
 	s.send("(set-option :print-success false)")
 	s.send("(set-option :produce-models true)")
+	s.send("(set-option :global-declarations true)")
 	s.send(fmt.Sprintf("(set-option :timeout %d)", QueryTimeoutMs))
 	return s
 }
@@ -108,108 +111,122 @@ func (s *Solver) Check(asserts []*Term) (bool, map[string]uint64, error) {
 	for _, a := range asserts {
 		s.define(a)
 	}
-	s.send("(push 1)")
-	for _, a := range asserts {
-		s.send("(assert " + a.ref() + ")")
+	// The assertion stack is kept between queries, one push level per assertion; consecutive
+	// queries of a depth-first exploration share long prefixes, which are neither re-sent nor
+	// re-processed by the solver.
+	lcp := 0
+	for lcp < len(s.stack) && lcp < len(asserts) && s.stack[lcp] == asserts[lcp] {
+		lcp++
 	}
+	if n := len(s.stack) - lcp; n > 0 {
+		s.send(fmt.Sprintf("(pop %d)", n))
+		s.stack = s.stack[:lcp]
+	}
+	for _, a := range asserts[lcp:] {
+		s.send("(push 1)")
+		s.send("(assert " + a.ref() + ")")
+		s.stack = append(s.stack, a)
+	}
+	tA := time.Now()
 	s.send("(check-sat)")
 	res := s.readSexp()
+	s.TCheck += time.Since(tA)
+	s.TPrep += tA.Sub(t0)
 	if strings.Contains(res, "error") {
-		s.send("(pop 1)")
+		s.reset()
 		return false, nil, fmt.Errorf("solver error: %s", res)
 	}
 	switch res {
 	case "unsat":
-		s.send("(pop 1)")
 		return false, nil, nil
 	case "sat":
 		model := map[string]uint64{}
 		if len(s.vars) > 0 {
+			tB := time.Now()
 			s.send("(get-value (" + strings.Join(s.vars, " ") + "))")
 			mv := s.readSexp()
+			s.TModel += time.Since(tB)
 			if strings.Contains(mv, "(error") {
-				s.send("(pop 1)")
+				s.reset()
 				return false, nil, fmt.Errorf("solver error: %s", mv)
 			}
 			parseModel(mv, model)
 		}
-		s.send("(pop 1)")
 		return true, model, nil
 	default:
-		s.send("(pop 1)")
 		return false, nil, fmt.Errorf("solver answered %q", res)
 	}
 }
 
-func parseModel(s string, m map[string]uint64) {
-	// ((name value) (name value) ...)
-	toks := tokenize(s)
-	i := 0
-	// skip first "("
-	if len(toks) == 0 {
-		return
-	}
-	i++
-	for i < len(toks) && toks[i] == "(" {
-		name := toks[i+1]
-		v := toks[i+2]
-		var val uint64
-		switch {
-		case v == "true":
-			val = 1
-		case v == "false":
-			val = 0
-		case strings.HasPrefix(v, "#x"):
-			val, _ = strconv.ParseUint(v[2:], 16, 64)
-		case strings.HasPrefix(v, "#b"):
-			val, _ = strconv.ParseUint(v[2:], 2, 64)
-		case v == "(":
-			// (_ bvN W)
-			if toks[i+3] == "_" && strings.HasPrefix(toks[i+4], "bv") {
-				val, _ = strconv.ParseUint(toks[i+4][2:], 10, 64)
-			}
-			// skip to matching )
-			d := 1
-			j := i + 3
-			for d > 0 {
-				if toks[j] == "(" {
-					d++
-				} else if toks[j] == ")" {
-					d--
-				}
-				j++
-			}
-			m[name] = val
-			i = j + 1
-			continue
-		}
-		m[name] = val
-		i += 4
+// reset pops every assertion level (after an error the stack state is not trusted).
+func (s *Solver) reset() {
+	if len(s.stack) > 0 {
+		s.send(fmt.Sprintf("(pop %d)", len(s.stack)))
+		s.stack = nil
 	}
 }
 
-func tokenize(s string) []string {
-	var toks []string
-	cur := ""
-	for _, c := range s {
-		switch c {
-		case '(', ')':
-			if cur != "" {
-				toks = append(toks, cur)
-				cur = ""
-			}
-			toks = append(toks, string(c))
-		case ' ', '\n', '\t', '\r':
-			if cur != "" {
-				toks = append(toks, cur)
-				cur = ""
-			}
-		default:
-			cur += string(c)
+func parseModel(s string, m map[string]uint64) {
+	// ((name value) (name value) ...) with value one of: true false #x.. #b.. (_ bvN W)
+	i, n := 0, len(s)
+	skip := func() {
+		for i < n && (s[i] == ' ' || s[i] == '\n' || s[i] == '\t' || s[i] == '\r') {
+			i++
 		}
 	}
-	if cur != "" {
-		toks = append(toks, cur)
+	atom := func() string {
+		st := i
+		for i < n && s[i] != ' ' && s[i] != '\n' && s[i] != '(' && s[i] != ')' && s[i] != '\t' && s[i] != '\r' {
+			i++
+		}
+		return s[st:i]
 	}
-	return toks
+	skip()
+	if i >= n || s[i] != '(' {
+		return
+	}
+	i++
+	for {
+		skip()
+		if i >= n || s[i] != '(' {
+			return
+		}
+		i++
+		skip()
+		name := atom()
+		skip()
+		var val uint64
+		if i < n && s[i] == '(' {
+			// (_ bvN W)
+			i++
+			skip()
+			atom() // _
+			skip()
+			a := atom()
+			if strings.HasPrefix(a, "bv") {
+				val, _ = strconv.ParseUint(a[2:], 10, 64)
+			}
+			for i < n && s[i] != ')' {
+				i++
+			}
+			i++
+		} else {
+			v := atom()
+			switch {
+			case v == "true":
+				val = 1
+			case v == "false":
+				val = 0
+			case strings.HasPrefix(v, "#x"):
+				val, _ = strconv.ParseUint(v[2:], 16, 64)
+			case strings.HasPrefix(v, "#b"):
+				val, _ = strconv.ParseUint(v[2:], 2, 64)
+			}
+		}
+		m[name] = val
+		skip()
+		if i < n && s[i] == ')' {
+			i++
+		}
+	}
 }
